@@ -12,6 +12,7 @@ CFG = {'assumptions': ['the value is acyclic and built from the supported kinds 
  'go': {'size.Of': 'size.Of', 'size.Of/known': 'size.Of', 'size.Stat': 'size.Stat (number in the first line)',
         'size.Stat/text': 'size.Stat (the whole text, with and without Opt{AvgOf, AvgUnit})',
         'size.Stat/sorted': 'size.Stat (the lines, sorted)',
+        'size.Stat/after-panic': 'size.Of, size.Stat: a session around a panicking Stat call',
         'size.Stat/opts': 'size.Stat (variadic options: Opt / int / *Opt)',
         'typehelper.ToSlice': 'typehelper.ToSlice (result serialized back to a value text)',
         'typehelper.ToSlice+size.Of': 'size.Of(typehelper.ToSlice(v))'},
